@@ -81,8 +81,8 @@ WorkThread::WorkThread(event::Loop *main_loop) :
     d_(new Data)
 {
     d_->default_main_loop = main_loop;
+    d_->stop_flag = false;  //! 必须在启动线程之前设置，线程一启动就会读取它
     d_->work_thread = std::thread(std::bind(&WorkThread::threadProc, this));
-    d_->stop_flag = false;
 }
 
 WorkThread::~WorkThread()
